@@ -232,4 +232,56 @@ CHECKS = {
             {"harness": "VH_C07L", "quick": {"extra": 1}, "thorough": {"extra": 3}, "covers": ["C07L:compared"]},
         ],
     },
+    "C09": {
+        "explanation": "Symbolic execution of Entry.print, PrintCtx.set/setentry, printImpl and everything below it. Method: arbitrary pooled "
+                       "pre-state instead of histories. The same probe (WriteThru with an explicit timestamp; format, UTC mode, severity "
+                       "among a built-in, an error-class, a level registered without colour and an unregistered one, single- and "
+                       "multi-line messages, attribute lists with a group and an error) is run on a fresh PrintCtx and on a PrintCtx whose "
+                       "every field the library can have left behind is symbolic (buffer content, mode bits, layout, utc mode, level, msg, "
+                       "first/rest lines, eol, stale attribute list, colours, timestamp, cached source), constrained only by the "
+                       "representation invariant (off=0, lastRead=0, prefix empty, not in grouped mode, noQuoted, dedupeAttrs). The two "
+                       "payloads must be byte-identical and the invariant must hold on the object put back, so one step covers histories of "
+                       "any length on any logger.",
+        "bounds": {"quick": "stale buffer 2 bytes, stale strings 1-2 bytes, 2 stale colour values each; 3 formats x 2 UTC modes x 4 severities x 3 messages x 4 attribute lists",
+                   "thorough": "same space (covered at quick)"},
+        "outside": "user marshallers that read from the PrintCtx (move off); the pooled attribute slice of logContext (its cells are never read beyond len)",
+        "assumptions": ["sync.Pool hands back the object put last (engine model; natively true on one goroutine without GC)"],
+        "runs": [
+            {"harness": "VH_C09", "quick": {"attrkinds": 4}, "thorough": {"attrkinds": 4}, "covers": ["C09:compared"]},
+        ],
+    },
+    "C10": {
+        "explanation": "Execution by the symbolic engine of newentry, newChildLogger, New, the With*/Set* pairs (level, JSON/colour mode, UTC mode, "
+                       "time format, attrs, skip, context keys, writer), ResetContextKeys, Parent/Root/Sublogger/Each and the getters. The "
+                       "solver chooses at every step a target logger among those created so far and one of 21 operations (with symbolic "
+                       "boolean / chosen level arguments); the harness keeps a model tree and asserts after every step, for every logger, "
+                       "that all settings equal the model (so an operation on one logger changed no other), that With... returned a new "
+                       "child of the receiver (WithSkip(n): one child per n) and Set... the receiver, that New(name) twice returns the same "
+                       "child; finally Each visits each node of every subtree exactly once at its depth and Sublogger agrees with the "
+                       "creation history. D: the real init() under production-process stubs gives the Warn default; package-level "
+                       "SetLevel/New.",
+        "bounds": {"quick": "histories of 3 operations from one detached root", "thorough": "histories of 4 operations"},
+        "outside": "random-name collisions (random names are assumed fresh); SetLevel(Debug/Trace) (process-wide side effect, C01); longer histories",
+        "assumptions": ["stringtool.RandomStringPure returns fresh distinct names"],
+        "runs": [
+            {"harness": "VH_C10", "quick": {"steps": 3}, "thorough": {"steps": 4}, "covers": ["C10:done"]},
+            {"harness": "VH_C10D", "covers": ["C10D:done"]},
+        ],
+    },
+    "C14": {
+        "explanation": "The engine answers runtime.Callers/Caller/CallersFrames/FuncForPC from its own call stack of interpreted frames (synthetic "
+                       "wrappers elided like the runtime elides autogenerated frames), so the library's skip constants (log1=3, Context "
+                       "verbs=2, logctxctx=3+inc, handlerWriter.Write=4, adapter 3+1+skip) are checked against the real call-graph depth, "
+                       "including the interpreted frames of log.(*Logger).Print*/output and log/slog.(*Logger).log. Each of 52 entry points "
+                       "(logger verbs, Context verbs, LogAttrs/Logit/Log, printf verbs, package-level functions, log/slog adapter, std log "
+                       "bridge) is called from a closure that records its own function and line; the closure runs under a chain of four "
+                       "wrappers; the logger skips n frames; the record (3 formats; root, child and default logger) must name the closure "
+                       "(n=0) or the wrapper n levels up with that wrapper's call line.",
+        "bounds": {"quick": "52 entry points x 3 formats x 3 logger kinds x skip 0..2", "thorough": "skip 0..4"},
+        "outside": "identity between the Go runtime's frame elision/inlining and go/ssa's notion of synthetic wrapper: trusted, cross-validated because every counterexample is replayed natively",
+        "assumptions": ["runtime.Callers answered from the engine's call stack"],
+        "runs": [
+            {"harness": "VH_C14", "quick": {"skip": 2}, "thorough": {"skip": 4}, "covers": ["C14:called"]},
+        ],
+    },
 }
